@@ -102,7 +102,9 @@ func main() {
 }
 
 // expectedSilent: seeded changes that are documented as outside the claimed clauses (DESIGN.md §9).
-var expectedSilent = map[string]int{}
+var expectedSilent = map[string]int{
+	"C08": 1, // C08-m10: word-at-a-time scan in util.Bitmask.HasBitsIn drops the last 8 middle bytes — bitmask arithmetic, not decided (DESIGN.md §5, §9)
+}
 
 // controlPar: control child processes run at a time (each ≈ 1 GB).
 const controlPar = 6
